@@ -109,8 +109,8 @@ def harvest(sid, prop):
         for line in out.splitlines():
             if line.startswith("VIOLATION"):
                 path = line.split("replay=", 1)[1].strip()
-                if not os.path.exists(path):
-                    continue
+                if not os.path.exists(path) or "/found/" not in path:
+                    continue  # already a committed regression input
                 base = os.path.basename(path.rstrip("/"))
                 ext = os.path.splitext(base)[1] if os.path.isfile(path) else ""
                 dst = os.path.join(VERIF, "replays", prop, "seed-%s-%d%s" % (sid, len(kept), ext))
